@@ -385,7 +385,7 @@ def main():
         'hooks': {
             'guard': 'OPENMDAO_VERIF',
             'enable': 'no source hooks: /verif/check sets OPENMDAO_VERIF=1 and installs observation wrappers from the harness '
-                      '(harness/vf/omwrap.py) in the checking process only; /repo is an editable install so checks see the working tree',
+                      '(per driver, e.g. harness/vf/drivers/c09.py, c17.py, c24.py) in the checking process only; /repo is an editable install so checks see the working tree',
             'baseline_off_cmd': 'cd /repo && /venv/bin/python -m pytest -ra -q -p no:cacheprovider --timeout=900 '
                                 '--continue-on-collection-errors -n 16',
             'source_commits': [],
